@@ -145,7 +145,13 @@ impl Verify for StreamInfo {
         }
         verify_range!("sample_rate", self.sample_rate(), ..=96_000)?;
         verify_range!("channels", self.channels(), 1..=8)?;
-        verify_bps!("bits_per_sample", self.bits_per_sample())
+        verify_bps!("bits_per_sample", self.bits_per_sample())?;
+        // `4n + 1` bits are only for side channels, not for a stream.
+        verify_true!(
+            "bits_per_sample",
+            self.bits_per_sample() % 4 == 0,
+            "must be a multiple of 4"
+        )
     }
 }
 
